@@ -10,6 +10,8 @@ mod c05;
 mod c04;
 mod c03;
 mod c01;
+mod enc;
+mod c08;
 mod c02;
 
 pub struct Out {
@@ -58,7 +60,7 @@ fn main() {
         std::process::exit(2);
     }
     // silence panic messages: panics are observations here
-    std::panic::set_hook(Box::new(|_| {}));
+    if std::env::var("PGH_DEBUG").is_err() { std::panic::set_hook(Box::new(|_| {})); }
     let prop = args[1].as_str();
     let mode = args[2].as_str();
     let outdir = args.last().unwrap().clone();
@@ -74,6 +76,7 @@ fn main() {
             let n: usize = args[4].parse().unwrap();
             match prop {
                 "C19" => c19::gen(seed, n, &mut out),
+                "C08" => c08::gen(seed, n, &mut out),
                 "C01" => c01::gen(seed, n, &mut out),
                 "C02" => c02::gen(seed, n, &mut out),
                 "C03" => c03::gen(seed, n, &mut out),
